@@ -1,8 +1,9 @@
 PAIRS = []
 # (block size, smallest capacity, largest capacity, tier, extra): small pages exhaustively (any free set, any stop point);
 # pages whose first 64-block group is completely in use with free blocks in the tail (the bitmap fast path)
-for bs, lo, hi, t, x in ((16, 1, 8, "quick", []), (16, 67, 67, "quick", ["-DVC_TAILFREE"]), (48, 1, 8, "thorough", []), (48, 67, 67, "thorough", ["-DVC_TAILFREE"]),
-                         (16, 131, 131, "thorough", ["-DVC_TAILFREE"]), (1024, 1, 8, "thorough", [])):      # (16, 65..67 with an arbitrary free set: no answer in 3600 s -- not run, not decided)
+# measured on the final plan (thorough run): (48, 67, tail-free) and (16, 131, tail-free) exhaust 12 GB, (16, 65..67, arbitrary free set) gives no answer in 3600 s:
+# these three are NOT run and NOT decided
+for bs, lo, hi, t, x in ((16, 1, 8, "quick", []), (16, 67, 67, "quick", ["-DVC_TAILFREE"]), (48, 1, 8, "thorough", []), (1024, 1, 8, "thorough", [])):
     PAIRS.append(dict(name="visit_blocks_%d_%d_%d%s" % (bs, lo, hi, "_tail" if x else ""), entry="h_visit_blocks", harness="harness/c12_walk.c", enforce=None, mode="plain", label="B", K=hi,
                       defs=["-DVC_BS=%d" % bs, "-DVC_CAP=%d" % hi, "-DVC_CAPMIN=%d" % lo] + x, unwind=hi + 3, timeout=1200, timeout_thorough=3600, tier=t, mem_gb=12,
                       functions=["_mi_heap_area_visit_blocks", "_mi_heap_area_init", "mi_get_fast_divisor", "mi_fast_divide"]))
